@@ -92,8 +92,8 @@ Print Assumptions C12_static_only.
     implemented for exactly [Gc] and [GcWeak]) returns a pointer with the brand of its argument. *)
 Theorem C12_impl_args_keep_brand :
   (forall i, In i impls -> impl_args_brand_ok i = true)
-  /\ map (fun i => match i_self i with TPath n _ _ => n | _ => "?" end)
-         (brand_carrying_impls "__CoercePtrInternal" impls) = ["Gc"; "GcWeak"].
+  /\ same_set (map (fun i => match i_self i with TPath n _ _ => n | _ => "?" end)
+                   (brand_carrying_impls "__CoercePtrInternal" impls)) ["Gc"; "GcWeak"] = true.
 Proof. exact (conj impl_brand_lifted unsize_impls_present). Qed.
 Print Assumptions C12_impl_args_keep_brand.
 
